@@ -284,7 +284,9 @@ func (vc *VC) inline(act *Act, st *State, fn *ssa.Function, args []Val, bind []V
 			sub.env[fv] = bind[k]
 		}
 	}
+	vc.eng.curScope = append(vc.eng.curScope, fn)
 	vc.runBody(sub, st.clone())
+	vc.eng.curScope = vc.eng.curScope[:len(vc.eng.curScope)-1]
 	var sts []*State
 	var rets []Val
 	for _, e := range sub.exits {
